@@ -65,7 +65,9 @@ print('CONFIRMED' if fails else 'NOT-CONFIRMED', fails)
 """
 
 
-def _rhs_algebra(chk, deg):
+def _rhs_algebra(chk, deg, drop=()):
+    """drop: variables (0..5 = q1,q2,q3,p1,p2,p3) removed from the QUADRATIC part of H - 'every polynomial Hamiltonian' includes
+    those in which a variable enters only through terms of degree >= 3 (structurally zero blocks in the Jacobian)"""
     import hiten.algorithms.dynamics.hamiltonian as dh
     import hiten.algorithms.integrators.symplectic as sym
     import hiten.algorithms.polynomial.base as pb
@@ -79,6 +81,12 @@ def _rhs_algebra(chk, deg):
             H = List()
             for d in range(deg + 1):
                 H.append(polyx.sym_block(alg, "a", d, sparse=(d >= 3)))
+            if drop:
+                from hiten.algorithms.polynomial.base import _decode_multiindex
+                for pos in range(len(H[2])):
+                    k = _decode_multiindex(pos, 2, clmo)
+                    if any(int(k[v]) > 0 for v in drop):
+                        H[2][pos] = X(alg.const(0))
             hd = polyx.list_to_dict(H)
             hs = dh._HamiltonianSystem(H, deg, psi, clmo, enc, 3)
             y = [alg.gens["y%d" % i] for i in range(6)]
@@ -108,12 +116,16 @@ def _rhs_algebra(chk, deg):
             direct = [val(c) for c in dh._hamiltonian_rhs(yv, jp, cp, nd)]
             if any(a - b != 0 for a, b in zip(direct, want)):
                 raise Refuted("_hamiltonian_rhs(y, *rhs_params) != (dH/dP, -dH/dQ)", "")
-    chk.obl(f"rhs(t,y) == (dH/dP, -dH/dQ)(y) for symbolic H of degree <= {deg} (real _polynomial_jacobian), independent of "
+    tag = "" if not drop else f" whose quadratic part does not contain the variables {sorted(drop)} (they enter through higher degrees only)"
+    chk.obl(f"rhs(t,y) == (dH/dP, -dH/dQ)(y) for symbolic H of degree <= {deg}{tag} (real _polynomial_jacobian), independent of "
             f"t; dH_dQ, dH_dP, _eval_hamiltonian_derivative, rhs_params agree", "K1 identity (symbolic coefficients)",
             [DH + ":_hamiltonian_rhs", DH + ":_HamiltonianSystem.__init__", DH + ":_HamiltonianSystem._build_rhs_impl",
              DH + ":_HamiltonianSystem.dH_dQ", DH + ":_HamiltonianSystem.dH_dP", DH + ":_HamiltonianSystem.rhs_params",
              SY + ":_eval_dH_dQ", SY + ":_eval_dH_dP", SY + ":_eval_hamiltonian_derivative",
              SY + ":_construct_6d_eval_point"], "B3 exact ring normal form", th)
+
+    if drop:
+        return
 
     def canary():
         alg = RingAlg(polyx.gen_names("a", range(3)) + ["y%d" % i for i in range(6)], False)
@@ -468,6 +480,7 @@ def run(chk):
     chk.trust("sympy ring arithmetic", "z3 5.1")
     chk.not_decided("bit-for-bit equality of float trajectories", "compilability beyond the bounded native witness")
     _rhs_algebra(chk, 4 if thorough else 3)
+    _rhs_algebra(chk, 3, drop=(0, 4))
     _twins_f2(chk)
     _ham_refiner_bisection(chk)
     _c10._stepping_loop(chk, "rk45", ham=True)
